@@ -14,7 +14,8 @@
   * observations: `size`, the full `getnext` walk and `get` of every key seen so far in the history,
     as the harness sees them through the original handle (`o`) and through a second handle attached
     to a byte copy of the region at another address (`c`); the model is value-semantic and prints
-    the same text twice.  For tables with more than `smallCap` slots an FNV-1a-64 digest of the
+    the same text twice.  Tables of more than 64 slots: after init / walk / size and every 4th operation
+    only (`o - c -` otherwise).  For tables with more than `smallCap` slots an FNV-1a-64 digest of the
     text is printed instead of the text.
   * ` | WF-FAILED` is appended when `wfCheck` rejects the model's image (never, by `wf_reachable`);
     it is evaluated after every operation for tables up to 64 slots and every 50th operation above.
@@ -96,12 +97,20 @@ def obsStr (img : Img) (keys : Array KeyRec) : String :=
 def addKey (keys : Array KeyRec) (k : KeyRec) : Array KeyRec :=
   if keys.any (fun r => r.key == k.key) then keys else keys.push k
 
-def finish (st : St) (old : Option Img) (img : Img) (keys : Array KeyRec) (res : String) : St × String :=
+/-- tables of more than 64 slots are observed (size, walk, get of every key; twice) after init / walk /
+    size and every 4th operation, tables of more than 20000 slots every 256th: `o - c -` otherwise -/
+def fullObs (st : St) (old : Option Img) (img : Img) (force : Bool) : Bool :=
+  img.slots.size ≤ 64 || old.isNone || force ||
+    (if img.slots.size ≤ 20000 then st.nops % 4 == 3 else st.nops % 256 == 255)
+
+def finish (st : St) (old : Option Img) (img : Img) (keys : Array KeyRec) (res : String) (force : Bool := false) :
+    St × String :=
   let nops := st.nops + 1
   let doWf := img.maxslots ≤ 64 || nops % 50 == 0
   let wf := if doWf && !wfCheck img then " | WF-FAILED" else ""
+  let obs := if fullObs st old img force then obsStr img keys else "o - c -"
   ({ img := some img, keys := keys, nops := nops },
-   s!"{res} | {hdrStr img} | {deltaStr old img} | g 111 | {obsStr img keys}{wf}")
+   s!"{res} | {hdrStr img} | {deltaStr old img} | g 111 | {obs}{wf}")
 
 def keyArgs (k h m : String) (nul : Bool) : Option KeyRec := do
   let kb ← Hex.decode k
@@ -202,8 +211,8 @@ def step (st : St) (ws : List String) : St × String :=
         | .ok img' => finish st (some img) img' st.keys "ok"
       | ["size"] =>
         let (n, m, u) := size img
-        finish st (some img) img st.keys s!"size {n} {m} {u}"
-      | ["walk"] => finish st (some img) img st.keys (walkStr img)
+        finish st (some img) img st.keys s!"size {n} {m} {u}" (force := true)
+      | ["walk"] => finish st (some img) img st.keys (walkStr img) (force := true)
       | ["next", i] =>
         match parseInt? i with
         | none => (st, "bad-op")
